@@ -276,6 +276,12 @@ example : LayoutWF 100 exOv (resolveAlign 0 0 0 0 0 0 0 3 false) none exLo :=
 example : exMv.filter (fun w => !w.isRec) = fixedMVars (exOv.filter (fun v => !v.isRec)) exLo.fixedBegins exLn.fixedBegins ∧
     exMv.length = exOv.length ∧ (∀ v ∈ exOv, v.packed ≤ v.len) ∧ (∀ v ∈ exOv ++ exExtra, v.len % 4 = 0 ∧ 0 < v.len) := by decide
 
+/-- the hypotheses of `redef_layout_ok` are jointly satisfiable: the theorem applied to the concrete pair -/
+example : LayoutOK (layOf exLo) (layOf exLn) (exOv ++ exExtra).length exMv :=
+  redef_layout_ok .cdf1 100 700 exOv exExtra (resolveAlign 0 0 0 0 0 0 0 3 false) (resolveAlign 0 0 0 0 4 0 4 4 true) none exLo exLn
+    (ncBegins_wf .cdf1 100 exOv _ 0 none exLo (resolveAlign_ok _ _ _ _ _ _ _ _ _) (by decide) (fun o ho => by cases ho) (by rfl))
+    (resolveAlign_ok _ _ _ _ _ _ _ _ _) (by decide) (by decide) (by rfl) exMv (by decide) (by decide)
+
 /-- non-vacuity of `history_layout_ok`: a three-phase history (create with three variables, a redefinition
     that appends a fixed and a record variable and grows the header beyond its extent, a redefinition
     that only adds free space) is accepted and has two consecutive pairs -/
